@@ -10,7 +10,10 @@ EXTRA = {"C08-4": ["C18"], "C01-4": ["C05"], "C20-4": ["C03"], "C15-4": ["C08"],
          # third round: the property a change was written for is not always the one whose clause it breaks
          "C01-5": ["C08"], "C02-6": ["C06", "C15"], "C04-6": ["C07", "C17"], "C05-6": ["C03"], "C08-5": ["C16"], "C08-6": ["C16"], "C14-5": ["C13"],
          "C15-5": ["C05"], "C15-6": ["C17"], "C17-5": ["C08", "C15"], "C18-5": ["C11"], "C19-6": ["C18"], "C16-6": ["C08"], "C11-6": ["C18"],
-         "C07-5": ["C13"], "C04-5": ["C07"]}
+         "C07-5": ["C13"], "C04-5": ["C07"],
+         # fourth round
+         "C02-7": ["C06"], "C11-7": ["C18"], "C03-8": ["C08"], "C08-7": ["C03", "C05"], "C08-8": ["C16"], "C07-7": ["C06"], "C07-8": ["C05"],
+         "C15-7": ["C03"], "C15-8": ["C13"], "C01-7": ["C09", "C14"]}
 
 def main():
     a = sys.argv[1:]
